@@ -74,7 +74,7 @@ func (p *Program) calleeOf(cc *ssa.CallCommon) (*ssa.Function, string) {
 
 func (p *Program) anyFuncName(fn *ssa.Function) string {
 	if p.isLib(fn) {
-		return p.FuncName(fn)
+		return p.rawName(fn) // callee names are the functions' own names (a call into a helper is not a call of its owner)
 	}
 	return qualName(fn)
 }
@@ -126,7 +126,7 @@ func (p *Program) siteOwners(fn *ssa.Function) []string {
 			return
 		}
 		seen[f] = true
-		name := p.FuncName(f)
+		name := p.rawName(f)
 		if knownFuncs[name] || f.Parent() != nil {
 			out[name] = true
 			return
@@ -245,7 +245,7 @@ func intConstsCompared(fns ...*ssa.Function) []int64 {
 		if fn == nil {
 			continue
 		}
-		for _, b := range fn.Blocks {
+		for _, b := range curProg.blocksOf(fn) {
 			for _, in := range b.Instrs {
 				bo, ok := in.(*ssa.BinOp)
 				if !ok {
@@ -632,4 +632,57 @@ func (p *Program) inlineAllExcept(stop ...string) func(fn *ssa.Function, depth i
 	return func(fn *ssa.Function, depth int) bool {
 		return depth <= 4 && p.isLib(fn) && !st[p.FuncName(fn)]
 	}
+}
+
+// isLocalAllocKey: the address names a variable allocated by the explored function itself (a private copy),
+// not a parameter's pointee, a heap field or a global.
+func isLocalAllocKey(k string) bool {
+	return strings.HasPrefix(k, "H:") || strings.HasPrefix(k, "L:")
+}
+
+// ownersOf names the reference functions a site in fn belongs to: fn itself when it is part of the reference tree
+// (or a closure), otherwise — fn is a helper extracted later — the reference functions that reach it.
+func (p *Program) ownersOf(fn *ssa.Function) []string {
+	name := p.rawName(fn)
+	if knownFuncs[name] || fn.Parent() != nil {
+		return []string{name}
+	}
+	return p.siteOwners(fn)
+}
+
+// ownedBy reports whether every owner of a site in fn satisfies ok.
+func (p *Program) ownedBy(fn *ssa.Function, ok func(owner string) bool) bool {
+	owners := p.ownersOf(fn)
+	for _, o := range owners {
+		if !ok(o) {
+			return false
+		}
+	}
+	return len(owners) > 0
+}
+
+// blocksOf returns the basic blocks of fn together with those of the helpers extracted from it: library functions
+// that are not part of the reference tree and are (transitively) called from fn.
+func (p *Program) blocksOf(fn *ssa.Function) []*ssa.BasicBlock {
+	var out []*ssa.BasicBlock
+	seen := map[*ssa.Function]bool{}
+	var rec func(f *ssa.Function)
+	rec = func(f *ssa.Function) {
+		if f == nil || seen[f] {
+			return
+		}
+		seen[f] = true
+		out = append(out, f.Blocks...)
+		for _, b := range f.Blocks {
+			for _, in := range b.Instrs {
+				if ci, ok := in.(ssa.CallInstruction); ok {
+					if c := ci.Common().StaticCallee(); c != nil && c.Parent() == nil && p.isLib(c) && !knownFuncs[p.rawName(c)] {
+						rec(c)
+					}
+				}
+			}
+		}
+	}
+	rec(fn)
+	return out
 }
